@@ -16,7 +16,7 @@
 (*   transition that calls the library leaves a self-contained vector in   *)
 (*   `last` which TLC prints and the harness replays on the real code.     *)
 (***************************************************************************)
-EXTENDS Alg, Tags, Json
+EXTENDS SigOps, Json
 
 CONSTANTS Keys,        \* set of integer secret keys (0 = the zero key, -1 = r-1)
           MsgRs,       \* set of message recipes (sequences of [c,k] chunks)
@@ -27,89 +27,6 @@ CONSTANTS Keys,        \* set of integer secret keys (0 = the zero key, -1 = r-1
 
 VARIABLES phase, art, last
 vars == <<phase, art, last>>
-
-\* ---------------------------------------------------------------- recipes
-\* message recipe chunk: [c |-> "a"|"b"|..., k |-> 0] atom ; [c |-> "pk", k |-> key] encoding of pk(key)
-SkOf(k)   == PConst(k)
-PkOf(k)   == GMulInt(k, GenK)
-DenChunk(ch) == IF ch.c = "pk" THEN EncK(PkOf(ch.k)) ELSE Atom(ch.c)
-DenMsg(mr) == [i \in 1..Len(mr) |-> DenChunk(mr[i])]
-
-\* --------------------------------------------------- mechanical layer
-\* BlsSignatureMessageAugmentation::sign/verify: the hashed message is pk_bytes || msg
-HashMsg(scheme, pk, m) == IF scheme = "Aug" THEN <<EncK(pk)>> \o m ELSE m
-HashPre(scheme) == IF scheme = "Aug" THEN "pk" ELSE ""
-
-\* sig_core.rs core_sign
-CoreSign(sk, m, tag) ==
-  IF PIsZero(sk) THEN [r |-> Err("SigningError"), v |-> GId]
-  ELSE [r |-> Ok, v |-> GScale(sk, Hs(tag, m))]
-
-\* secret_key.rs SecretKey::sign  (dispatch on scheme; aug prefixes pk bytes)
-Sign(sk, scheme, m) == CoreSign(sk, HashMsg(scheme, GScale(sk, GenK), m), TagOf(scheme))
-
-\* sig_core.rs core_verify: guard order preserved
-CoreVerify(pk, sig, m, tag) ==
-  IF GIsId(sig) THEN Err("InvalidInputs")
-  ELSE IF GIsId(pk) THEN Err("InvalidInputs")
-  ELSE IF GtOne(PairList(<< <<Hs(tag, m), pk>>, <<sig, GNeg(GenK)>> >>)) THEN Ok
-  ELSE Err("InvalidSignature")
-
-\* signature.rs Signature::verify: dispatch on the artefact's own variant
-Verify(pk, scheme, sig, m) == CoreVerify(pk, sig, HashMsg(scheme, pk, m), TagOf(scheme))
-
-\* sig_pop.rs pop_prove / pop_verify
-PopProve(sk) == CoreSign(sk, <<EncK(GScale(sk, GenK))>>, "POPPROOF")
-PopVerify(pk, proof) == CoreVerify(pk, proof, <<EncK(pk)>>, "POPPROOF")
-
-\* aggregate_signature.rs TryFrom<&[Signature]>: sigs = sequence of [scheme, den]
-Aggregate(sigs) ==
-  IF Len(sigs) < 2 THEN [r |-> Err("InvalidSignature"), scheme |-> "", v |-> GId]
-  ELSE IF \E i \in 2..Len(sigs) : sigs[i].scheme # sigs[1].scheme
-       THEN [r |-> Err("InvalidSignatureScheme"), scheme |-> "", v |-> GId]
-  ELSE [r |-> Ok, scheme |-> sigs[1].scheme, v |-> GSumSeq([i \in 1..Len(sigs) |-> sigs[i].den])]
-
-\* multi_signature.rs TryFrom<&[Signature]>: like Aggregate, but an Aug signature at
-\* position >= 2 is refused; an all-Aug list is refused by that same arm
-Accumulate(sigs) ==
-  IF Len(sigs) < 2 THEN [r |-> Err("InvalidSignature"), scheme |-> "", v |-> GId]
-  ELSE IF \E i \in 2..Len(sigs) : sigs[i].scheme # sigs[1].scheme \/ sigs[i].scheme = "Aug"
-       THEN [r |-> Err("InvalidSignatureScheme"), scheme |-> "", v |-> GId]
-  ELSE [r |-> Ok, scheme |-> sigs[1].scheme, v |-> GSumSeq([i \in 1..Len(sigs) |-> sigs[i].den])]
-
-\* multi_public_key.rs from_public_keys: plain sum, no guard
-MultiKey(pks) == GSumSeq(pks)
-
-\* sig_core.rs core_aggregate_verify over pairs = sequence of [pk, hm] (hm = hashed message)
-CoreAggVerify(pairs, sig, tag) ==
-  IF GIsId(sig) THEN Err("InvalidInputs")
-  ELSE IF \E i \in 1..Len(pairs) : GIsId(pairs[i].pk) THEN Err("InvalidInputs")
-  ELSE IF GtOne(PairList([i \in 1..Len(pairs) |-> <<Hs(tag, pairs[i].hm), pairs[i].pk>>]
-                         \o << <<sig, GNeg(GenK)>> >>)) THEN Ok
-  ELSE Err("InvalidSignature")
-
-\* AggregateSignature::verify: Basic de-duplicates messages first (sig_basic.rs), aug prefixes
-\* each pk, PoP passes through.  pairs = sequence of [pk, m]
-AggVerify(pairs, scheme, sig) ==
-  IF scheme = "Basic" /\ \E i, j \in 1..Len(pairs) : i < j /\ pairs[i].m = pairs[j].m
-  THEN Err("InvalidInputs")
-  ELSE CoreAggVerify([i \in 1..Len(pairs) |-> [pk |-> pairs[i].pk, hm |-> HashMsg(scheme, pairs[i].pk, pairs[i].m)]],
-                     sig, TagOf(scheme))
-
-\* -------------------------------------------------------- ideal layer
-\* the discrete log of a key-group element built from P alone is its P-coefficient
-DlogK(pk) == GC(pk, SymP)
-\* the one element that verifies for (pk, scheme, m)
-IdealSig(pk, scheme, m) == GScale(DlogK(pk), Hs(TagOf(scheme), HashMsg(scheme, pk, m)))
-IdealVerify(pk, scheme, sig, m) == ~GIsId(pk) /\ ~GIsId(sig) /\ sig = IdealSig(pk, scheme, m)
-IdealPop(pk) == GScale(DlogK(pk), Hs("POPPROOF", <<EncK(pk)>>))
-IdealAgg(pairs, scheme) ==
-  GSumSeq([i \in 1..Len(pairs) |-> IdealSig(pairs[i].pk, scheme, pairs[i].m)])
-IdealAggVerify(pairs, scheme, sig) ==
-  /\ ~GIsId(sig)
-  /\ \A i \in 1..Len(pairs) : ~GIsId(pairs[i].pk)
-  /\ scheme = "Basic" => \A i, j \in 1..Len(pairs) : i # j => pairs[i].m # pairs[j].m
-  /\ sig = IdealAgg(pairs, scheme)
 
 \* ------------------------------------------------- adversary derivations
 \* signature op: [op, n, s, k, m]   pk op: [op, n, k]
